@@ -18,6 +18,7 @@ type Path struct {
 	Instrs []ssa.Instruction // every instruction on the path in order
 	Ret    *ssa.Return       // nil if the path ends in panic or was cut
 	Cut    bool              // a back edge was skipped
+	CutTo  *ssa.BasicBlock   // target of the skipped back edge
 	Env    *env
 }
 
@@ -126,6 +127,7 @@ func (w *pathWalker) walk(b, pred *ssa.BasicBlock, p *Path, on map[*ssa.BasicBlo
 func (w *pathWalker) next(from, to *ssa.BasicBlock, p *Path, on map[*ssa.BasicBlock]bool) {
 	if on[to] {
 		p.Cut = true
+		p.CutTo = to
 		w.emit(p)
 		return
 	}
